@@ -516,7 +516,7 @@ def emit_impl_header(file, pattern, rules):
 
 LOOP_KW = ('loop', 'while', 'for')
 CLAUSE_KW = ('tags', 'rules', 'attr', 'ret', 'requires', 'ensures', 'decreases', 'prologue',
-             'loop', 'loopbody', 'after', 'end', 'safety', 'abstract', 'rename', 'fnname', 'hintafter')
+             'loop', 'loopbody', 'after', 'end', 'safety', 'abstract', 'rename', 'fnname', 'hintafter', 'postpred', 'prepred')
 
 
 class FnSpec:
@@ -535,6 +535,7 @@ class FnSpec:
         self.line = 0
         self.abstracts = []   # (kind 'T12'|'T13', pattern text, replacement text)
         self.hints = []       # (statement pattern, ghost block) spliced right after that statement
+        self.preds = {}       # 'requires'|'ensures' -> name of a generated spec predicate (conjunction of those clauses)
 
     def loop(self, n):
         return self.loops.setdefault(n, {'label': None, 'invariant': [], 'ensures': [],
@@ -897,6 +898,8 @@ def emit_fn(spec, impl_item, linemap_cb):
             out.append('        %s,' % (c[2].rstrip().rstrip(',')))
     out.append('{' + pro + body + '}')
     text = '\n'.join(out) + '\n'
+    if spec.preds:
+        text = clause_predicates(spec, sig) + text
     info['body_hash_src'] = tok_hash(toks[ba:bb + 1])
     # self-check: emitted body minus splices, with the rewrite rules undone, equals the source
     info['body_hash_emitted'] = emitted_hash('{' + pro + body + '}', rules)
@@ -905,6 +908,40 @@ def emit_fn(spec, impl_item, linemap_cb):
         if info['body_hash_src'] != info['body_hash_emitted']:
             raise AnchorLost('internal: body hash mismatch for %s' % spec.name)
     return text, info
+
+
+def clause_predicates(spec, sig):
+    """`postpred NAME` / `prepred NAME`: `pub open spec fn NAME(<the function's parameters>[, r: Ret]) -> bool` whose body
+    is the conjunction of the ensures / requires clauses, emitted next to the function."""
+    toks = code_tokens(lex(sig))
+    k = next(i for i, t in enumerate(toks) if t[1] == 'fn')
+    q = k + 2
+    gen = ''
+    if toks[q][1] == '<':
+        e = skip_angle(toks, q)
+        gen = sig[toks[q][2]:toks[e - 1][3]]
+        q = e
+    if toks[q][1] != '(':
+        raise AnchorLost('postpred: cannot read the parameter list of %s' % spec.name)
+    pe = match_close(toks, q)
+    params = sig[toks[q][3]:toks[pe][2]].strip().rstrip(',')
+    params = re.sub(r'\bmut\s+(?=\w+\s*:)', '', params)
+    if re.search(r'&\s*mut\s+self', params):
+        raise AnchorLost('postpred: %s takes &mut self' % spec.name)
+    ret = None
+    if pe + 1 < len(toks) and toks[pe + 1][1] == '->':
+        ret = sig[toks[pe + 2][2]:toks[-1][3]].strip()
+        if ret.startswith('('):
+            ret = ret[1:-1].strip()          # "(r: T)" -> "r: T"
+    out = ''
+    for ck, name in sorted(spec.preds.items()):
+        cl = [c for c in spec.clauses if c[0] == ck]
+        ps = params
+        if ck == 'ensures' and ret:
+            ps = (ps + ', ' if ps else '') + ret
+        body = '\n'.join('        &&& (%s)' % c[2].rstrip().rstrip(',') for c in cl) or '        true'
+        out += '%spub closed spec fn %s%s(%s) -> bool {\n%s\n}%s\n' % (MARK_A, name, gen, ps, body, MARK_B)
+    return out
 
 
 def emitted_hash(text, rules):
@@ -993,6 +1030,10 @@ def parse_fn_block(lines, start, spec):
                     spec.abstracts.append(('T13', pat.strip(), repl.strip()))
             elif kw == 'fnname':
                 spec.rules['T5name'] = [rest]
+            elif kw in ('postpred', 'prepred'):
+                # the conjunction of this function's ensures (requires) clauses as a named spec predicate over its
+                # parameters (and result): the text a dispatch axiom uses is then mechanically the text the body proves
+                spec.preds['ensures' if kw == 'postpred' else 'requires'] = rest
             elif kw == 'hintafter':
                 # hintafter <exact tokens of one statement, ending in ';'>  ...ghost block... end
                 buf = []
